@@ -72,8 +72,9 @@ def run(pid, tier, seed):
     # (e.g. TreeError of the recursive restore); reported in the evidence
     res.notes.append("outcomes with only refutable paths (dead under the contract): %s" % sorted("%s:%s" % k for k in dead))
     bad = [o for o in res.obligations if o.kind not in ("CANARY", "PROBE") and o.result != "unsat"]
-    if getattr(res, "disagree", None):
-        res.faults.append("back ends disagree")
+    dis = [o for o in res.obligations if str(getattr(o, "second", "") or "").startswith("DISAGREE")]
+    if dis:
+        res.faults.append("back ends disagree on %s (%s)" % (dis[0].name, dis[0].second))
     if bad or res.struct:
         names = [o.name for o in bad] + ["STRUCT:" + s.ident for s in res.struct]
         found, props = find_input(res, pid, names)
